@@ -33,6 +33,9 @@ static Obs observe(cocls::future<Counted> &f) {
     } catch (const cocls::value_not_ready_exception &) {
         o.kind = 4;  // released before the result was set
     }
+    // a released waiter must find the future resolved (checked after the payload was read so that this acquire load
+    // cannot hide a publication race from the race oracle)
+    if (!f.ready()) vrt_fail("future/early-wakeup", "a waiter was released although the future is not marked resolved yet (payload kind %d)", o.kind);
     return o;
 }
 static void released(int id, Obs o) {
